@@ -62,6 +62,7 @@ func main() {
 	case "conc/map":
 		w := vt.Create(*out)
 		concd.MapCalls(w, vt.Rand(*seed, "map"), *n, true)
+		concd.LazyRuns(w, vt.Rand(*seed, "lazy"), *n)
 		w.Close()
 		fmt.Printf("calls=%d\n", w.N)
 	case "conc/procrun":
